@@ -481,12 +481,13 @@ fn unit() -> Val {
 }
 fn p_blte_decompress(b: &[u8], _: &Env) -> Result<Val, String> {
     let f = <BlteFile as CascFormat>::parse(b).map_err(|e| e.to_string())?;
-    let plain = f.decompress().map_err(|e| e.to_string());
+    // one output at a time: the first result is dropped before the second call
+    let plain = f.decompress().map(|_| ()).map_err(|e| e.to_string());
     let mut ks = cascette_crypto::TactKeyStore::new();
     ks.add(cascette_crypto::TactKey::new(SEED_KEY_NAME, SEED_KEY));
-    let keyed = f.decompress_with_keys(&ks).map_err(|e| e.to_string());
+    let keyed = f.decompress_with_keys(&ks).map(|_| ()).map_err(|e| e.to_string());
     match (plain, keyed) {
-        (Ok(_), _) | (_, Ok(_)) => Ok(unit()),
+        (Ok(()), _) | (_, Ok(())) => Ok(unit()),
         (Err(e), Err(_)) => Err(e),
     }
 }
